@@ -284,6 +284,28 @@ def Arr.concat (a : Arr) : List Part → Arr × Outcome Val
     | .ok => r.1.concat ps
     | o => (r.1, o)
 
+/-- `cfun_array_join`: like array/concat, but a part that is not an array / tuple raises "expected indexed type"
+(after the earlier parts were appended) -/
+def Arr.join (a : Arr) : List Part → Arr × Outcome Val
+  | [] => (a, .ok)
+  | p :: ps =>
+    let r : Arr × Outcome Val := match p with
+      | .one _ => (a, .err)
+      | .many vs => a.pushAll vs
+      | .other vs srcNull =>
+        if a.isNull && srcNull then
+          match a.ensure (a.count + a.count) 2 with
+          | none => (a, .oom)
+          | some a' => a'.pushAll a.items
+        else a.pushAll vs
+      | .self =>
+        match a.ensure (a.count + a.count) 2 with
+        | none => (a, .oom)
+        | some a' => a'.pushAll a.items
+    match r.2 with
+    | .ok => r.1.join ps
+    | o => (r.1, o)
+
 /-- `janet_put` on an array -/
 def Arr.put (a : Arr) (key : Arg) (v : Val) : Arr × Outcome Val :=
   match getterCheckint key (i32max - 1) with
